@@ -157,5 +157,6 @@ int main(void) {
         else printf("? BADCMD\n");
         fflush(stdout);
     }
+    free(line);
     return 0;
 }
